@@ -12,20 +12,20 @@
 From Coq Require Import List NArith Bool String.
 From Verif.Common Require Import Packet Ipt.
 From Verif.C40 Require Import Model Spec Shape Proofs ProofsFailsafe ProofsFsHooks ProofsRaw ProofsMain ProofsDrop
-  ProofsTunnel ProofsWlHost ProofsLink ProofsWlHost2 ProofsRefuted.
+  ProofsTunnel ProofsWlHost ProofsLink ProofsWlHost2 ProofsMeets ProofsRefuted.
 Import ListNotations.
 Open Scope N_scope.
 
 (* 1. Failsafes: whatever the policy chains contain, a packet to a configured inbound failsafe port (not from a
    workload interface, conntrack state not INVALID, not governed by the tunnel clause) is not dropped by Felix at the
    raw PREROUTING (untracked), mangle PREROUTING (pre-DNAT) and filter INPUT (normal) hooks; a packet to a configured
-   outbound failsafe port is not dropped at raw OUTPUT and filter OUTPUT.  fs_in_ok / fs_out_ok are Spec.v's clauses. *)
+   outbound failsafe port is not dropped at raw OUTPUT, filter OUTPUT and mangle POSTROUTING (DNAT'd egress).  fs_in_ok / fs_out_ok are Spec.v's clauses. *)
 Theorem c40_failsafe_accept_all_paths : forall c raw mangle filter e p,
   cfg_ok c -> N.land (c_wg_mark c) (c_scr0 c) = 0 ->
   (forall q m, e_other e (2 * O_DST_LOCAL) (set_mark q m) = e_other e (2 * O_DST_LOCAL) q) ->
   installed c raw mangle filter -> hep_shapes raw mangle filter ->
   pk_ver p = c_ver c ->
-  fs_in_ok c raw mangle filter e p = true /\ fs_out_ok c raw filter e p = true.
+  fs_in_ok c raw mangle filter e p = true /\ fs_out_ok c raw mangle filter e p = true.
 Proof. exact failsafe_accept_all_paths. Qed.
 Print Assumptions c40_failsafe_accept_all_paths.
 
@@ -155,3 +155,18 @@ Theorem c40_tunnel_from_non_cluster_dropped : forall c filter e p,
   tunnel_ok c filter e p = true.
 Proof. exact tunnel_from_non_cluster_dropped. Qed.
 Print Assumptions c40_tunnel_from_non_cluster_dropped.
+
+(* 5. Model meets spec: Spec.v's per-packet oracle (all six clauses: failsafe in / out / responses, unknown workload
+   interface, workload to host, tunnel; the pre-policy special cases excused, the FORWARD clause strict) accepts EVERY
+   packet on EVERY table that contains the model's static chains, for ANY callee chains satisfying the shape conditions
+   and the hand-back conditions collected in `wl_side` (ProofsMeets.v).  This is the statement the correspondence run
+   instantiates: per case it checks model = real static chains and the shapes, then evaluates the same oracle. *)
+Theorem c40_model_meets_spec : forall c raw mangle filter wl e disp hepfwd towl p,
+  cfg_ok c -> ep_action_ok (c_ep_to_host c) -> N.land (c_wg_mark c) (c_scr0 c) = 0 ->
+  (forall q m, e_other e (2 * O_DST_LOCAL) (set_mark q m) = e_other e (2 * O_DST_LOCAL) q) ->
+  installed c raw mangle filter -> hep_shapes raw mangle filter ->
+  disp_ok raw (raw_hep_ok CH_FS_IN) CH_FROM_HEP = true -> disp_ok raw (raw_hep_ok CH_FS_OUT) CH_TO_HEP = true ->
+  wl_side c filter e wl disp hepfwd towl ->
+  pkt_ok false true c raw mangle filter wl e p = true.
+Proof. exact model_meets_spec. Qed.
+Print Assumptions c40_model_meets_spec.
